@@ -10,9 +10,25 @@ def strOfSx (x : Sx) : Option String := x.asBytes?.map fun b =>
   | some s => s
   | none => String.ofList (b.map fun u => Char.ofNat u.toNat)
 
+/-- (redef #name #def1 #def2 #query): with `name` defined as def1 the query must expand by the
+    token-level rewrite over the table extended by (name, def1); after the redefinition by the one
+    over the table extended by (name, def2) - whatever was expanded before. -/
+def judgeRedef (name d1 d2 q : String) (impl : String) : Verdict :=
+  let extra (d : String) : List (String × String) := [(name, d)]
+  let want (d : String) := String.ofList (specExpandToks (extra d ++ Gen.Macros.table) (tokenize q.toList))
+  let w := Sx.list [.atom "redef", Sx.ofString (want d1), Sx.ofString (want d2)]
+  { corr := w.toStr == impl, implSpec := w.toStr == impl, modelSpec := true, tags := [], nontrivial := true,
+    cls := "redef", model := w.toStr, spec := w.toStr }
+
 /-- kfl.macro: model = `expand`; spec (C17): in the domain the expansion is the token-level
     rewrite, every run gives the same text, and expanding again changes nothing. -/
 def judge (payload impl : String) : Verdict :=
+  match Sx.parse payload with
+  | some (.list [.atom "redef", n, a, b, q]) =>
+    (match strOfSx n, strOfSx a, strOfSx b, strOfSx q with
+     | some n, some a, some b, some q => judgeRedef n a b q impl
+     | _, _, _, _ => .bad "bad-case")
+  | _ =>
   match Sx.parse payload >>= strOfSx with
   | none => .bad "bad-case"
   | some q =>
@@ -32,5 +48,34 @@ def judge (payload impl : String) : Verdict :=
       implSpec := match Sx.parse impl with | some o => specOk o | none => false,
       modelSpec := specOk m, tags, nontrivial := hasName,
       cls := s!"dom={dom},changed={e != q}", model := m.toStr, spec := (Sx.ofString spec).toStr }
+
+/-- kfl.api (C12): Apply and PrepareQuery + Eval must give what the steps they are made of give, on
+    every call; a time helper denotes the instant of THIS preparation (the record of a `time` case is
+    stamped between two preparations of the same text). -/
+def judgeApi (payload impl : String) : Verdict :=
+  let ok := match Sx.parse payload, Sx.parse impl with
+    | some (.list [.atom "time", _, want]), some (.list [.atom "time", a, b]) =>
+      a.toStr == want.toStr && b.toStr == want.toStr
+    | some (.list (.atom "q" :: _)), some (.list [.atom "q", .list [.atom "ref", rt, rl], .list [.atom "apply", a1, a2],
+        .list [.atom "prep", p1t, p1l, p2t, p2l]]) =>
+      -- a precompute error makes Apply / PrepareQuery report an error too; otherwise all agree
+      a1.toStr == rt.toStr && a2.toStr == rt.toStr && p1t.toStr == rt.toStr && p2t.toStr == rt.toStr &&
+        p1l.toStr == rl.toStr && p2l.toStr == rl.toStr
+    | _, _ => false
+  { corr := ok, implSpec := ok && (impl.splitOn "panic").length == 1, modelSpec := true, tags := [], nontrivial := true,
+    cls := (if (payload.splitOn "(time").length > 1 then "time" else "q"),
+    model := "entry points = their steps, on every call", spec := "entry points = their steps; now() is the instant of this preparation" }
+
+/-- kfl.redactf (C15): `F and redact(P)` on a record on which F holds returns the record
+    `redact(P)` alone returns -/
+def judgeRedactF (_payload impl : String) : Verdict :=
+  match Sx.parse impl with
+  | some (.list [tf, r1, r2, _t2]) =>
+    let applicable := tf.toStr == "true"
+    let ok := !applicable || r1.toStr == r2.toStr
+    { corr := ok, implSpec := ok && r1.toStr != "error", modelSpec := true, tags := [], nontrivial := applicable,
+      cls := s!"filter-holds={applicable}", model := r1.toStr, spec := "the record redact(P) alone returns" }
+  | _ => { corr := false, implSpec := false, modelSpec := true, tags := [], nontrivial := true, cls := "no-observation",
+           model := "-", spec := "the record redact(P) alone returns" }
 
 end KsVerif.Kfl.Macro
